@@ -117,3 +117,7 @@ def run(chk):
     chk.assumptions += ["x86-64: int 32 bit, pointers 64 bit", "a stored value equal to (ppointer)-1 is excluded (API cannot distinguish it from not-found)",
                         "allocation never fails in this check (C18 covers failure)"]
     return chk.finish()
+
+
+def replay_family(cfg):
+    return diffrun.Family("ht", pv.build_harness("ht", cfg, ["ht.c"], san="asan"), spec_view=spec_view)
